@@ -68,7 +68,7 @@ def gen(st, tier):
         spec["faults"] = [["rep", ["frac", 0.05 + 0.9 * f.random()], f.choice(CLASSES)] for _ in range(6)] + [
             ["cut_bin", ["end", 0]], ["cut_bin", ["frac", f.random()]], ["cut_text", ["frac", f.random()]]]
         return spec
-    spec = files.file_spec(w, max_len=200 if tier == "quick" else 120)
+    spec = files.file_spec(w, max_len=200 if tier == "quick" else 120, p_enc=0.25)
     if tier == "thorough":
         spec["faults"] = "all"
         return spec
@@ -100,7 +100,7 @@ def gen(st, tier):
     faults.append(["sector", ["end", 0], f.choice(["zero", "stale"])])
     if spec["kind"] == "bf3":
         for _ in range(3):
-            faults.append(["keybit", f.randrange(128)])
+            faults.append(["keybit", f.randrange(128), f.choice(["copy", "inplace"])])
     spec["faults"] = faults
     return spec
 
@@ -142,7 +142,7 @@ def _all_faults(text_len, bin_len, kind):
         yield ["sector", ["abs", k * 512], "stale"]
     if kind == "bf3":
         for i in range(128):
-            yield ["keybit", i]
+            yield ["keybit", i, "copy" if i % 2 else "inplace"]
 
 
 def _run_conc(case):
@@ -258,7 +258,8 @@ def run(case):
         for ft in faults:
             nev += 1
             fkind = ft[0]
-            key = w.key
+            kbuf[:] = w.key
+            key = kbuf if kind == "bf3" else w.key    # one buffer object for every read of this caller
             region = ""
             if fkind in ("cut_text", "crash"):
                 n = _resolve(ft[1], len(orig))
@@ -337,13 +338,18 @@ def run(case):
                     out.fired["sector-" + ft[2]] += 1
             elif fkind == "keybit":
                 i = ft[1]
-                if nev % 2:
+                if (ft[2] if len(ft) > 2 else "copy") == "copy":
                     kb = bytearray(w.key)
                     kb[i // 8] ^= 1 << (i % 8)
                     key = bytes(kb)
                 else:
-                    # the same buffer object that was used for the successful read, changed in place
+                    # the same buffer object that was just used for a successful read, changed in place
                     kbuf[:] = w.key
+                    fs.files[name] = orig
+                    try:
+                        files.read_file(kind, fs, env, name, "stream", True, kbuf, decs)
+                    except Exception:
+                        pass
                     kbuf[i // 8] ^= 1 << (i % 8)
                     key = kbuf
                     out.probes["key-buffer-changed-in-place"] += 1
